@@ -29,11 +29,11 @@ def main():
     prop, k = sys.argv[1].upper(), sys.argv[2]
     keep = "--keep" in sys.argv
     notests = "--no-tests" in sys.argv
-    wave = 6 if "--wave6" in sys.argv else (5 if "--wave5" in sys.argv else (3 if "--wave3" in sys.argv else (2 if "--wave2" in sys.argv else 1)))
-    wt = "/tmp/seed/%s-%s" % ({1: "wt", 2: "w2", 3: "w3", 5: "w5", 6: "w6"}[wave], prop)
-    if wave == 6:
-        # sixth round: out6-<P>/fault<k>; ids continue after round 5
-        out = "/tmp/seed/out6-%s/fault%s" % (prop, k)
+    wave = 7 if "--wave7" in sys.argv else 6 if "--wave6" in sys.argv else (5 if "--wave5" in sys.argv else (3 if "--wave3" in sys.argv else (2 if "--wave2" in sys.argv else 1)))
+    wt = "/tmp/seed/%s-%s" % ({1: "wt", 2: "w2", 3: "w3", 5: "w5", 6: "w6", 7: "w7"}[wave], prop)
+    if wave in (6, 7):
+        # sixth / seventh round (disjoint sets of properties): out6-<P>/fault<k>, out7-<P>/fault<k>; ids continue after round 5
+        out = "/tmp/seed/out%d-%s/fault%s" % (wave, prop, k)
         sid = "%s-%d" % (prop, int(k) + 12)
     elif wave == 5:
         # fifth round: out5-<P>/fault<k> (faults) next to out5-<P>/benign<k> (handled by tools/benign_collect.py); ids continue after round 3
